@@ -198,6 +198,9 @@ CLAIMS["C06"] = {
             "claims: the slice and the stream implementation of the symbol and R6RS string scanners each meet ONE "
             "specification for inputs of any length (terminators, one byte per step, exact range / copied bytes, in-bounds "
             "slicing, I/O errors at the failing byte). "
+            "E1 stream primitives (c06_stream_failure_surfaces): for streams of 0-2 good bytes followed by a read failure of "
+            "kind Other / UnexpectedEof / WouldBlock / BrokenPipe and every sequence of 4 peek / next calls, the good bytes are "
+            "delivered in order and the first operation that needs the failing byte returns an I/O error - never end of input. "
             "Reader protocol: the digit-loop step claims of the number scanner (c05_*_step) account for every byte consumed and hand the fraction / exponent scanners the undisturbed lookahead; a discard() known to follow a consuming read without a peek() in between (a no-op for a stream, a skipped byte for a slice) is a reachable-panic finding in every claim that uses the reader model.",
     "note": "IoRead reads through io::Bytes one byte per read call, so chunking schedules are immaterial (stated, not "
             "explored); Interrupted is retried inside std's Bytes (trusted). Whole-parser slice-vs-stream equality on "
